@@ -29,7 +29,7 @@ func (fl *PFLine) Reset() {
 
 // Request returns true if the parsed first line corresponds to a SIP request.
 func (fl *PFLine) Request() bool {
-	return fl.Status == 0
+	return fl.StatusCode.Empty()
 }
 
 // Empty returns true is nothing has been parsed yet.
